@@ -12,6 +12,7 @@ import (
 	"fmt"
 	"runtime"
 	"strings"
+	"sync/atomic"
 	"testing"
 	"time"
 
@@ -136,7 +137,7 @@ type poolRun struct {
 	guns     *fake.GunWorld
 	aggr     *fake.Aggregator
 	schedN   int32
-	schedHit bool
+	schedHit atomic.Bool
 }
 
 func buildPool(i int, pc PoolCase) (*poolRun, engine.InstancePoolConfig) {
@@ -152,7 +153,7 @@ func buildPool(i int, pc PoolCase) (*poolRun, engine.InstancePoolConfig) {
 			if pc.SchedFaultUs > 0 {
 				time.Sleep(time.Duration(pc.SchedFaultUs) * time.Microsecond)
 			}
-			pr.schedHit = true
+			pr.schedHit.Store(true)
 			return nil, &fake.InjectedError{Where: "sched"}
 		}
 		switch pc.Profile {
@@ -190,7 +191,7 @@ func (pr *poolRun) reached() []string {
 			out = append(out, k)
 		}
 	}
-	if pr.schedHit {
+	if pr.schedHit.Load() {
 		out = append(out, "sched")
 	}
 	return out
